@@ -34,7 +34,7 @@ def scan(ctx, ofails, notes, stat_code):
                 panics += 1
                 ofails.append({"profile": prof, "record": line})
                 continue
-            if ps[2] > 0:
+            if ps[2] > 0 and code not in (3042, 3050, 3090, 4020):   # these have no flag vector
                 fl = flags_of(vs)
                 if len(fl) >= 2 and fl[1] in xbe:
                     xbe[fl[1]] += 1
